@@ -10,7 +10,8 @@
 (***************************************************************************)
 EXTENDS Naturals, Integers, Sequences, TLC, Json
 
-CONSTANTS Depth, Inits, Operands
+CONSTANTS Depth, Inits, Operands,
+          LeafVals     \* values assigned to literals in place, e.g. {5, 7}
 
 Num(v) == [k |-> "num", v |-> v, op |-> "", xs |-> <<>>, ops |-> <<>>]
 Un(op, a) == [k |-> "un", v |-> 0, op |-> op, xs |-> <<a>>, ops |-> <<>>]
@@ -113,7 +114,31 @@ ApplyUnary(op) ==
     /\ hist' = Append(hist, [op |-> "u" \o op, form |-> "plain", operand |-> <<"int", 0>>,
                              value |-> IF op = "-" THEN RNeg(Eval(e)) ELSE Eval(e), text |-> Render(Unary(e, op))])
 
-Next == \/ \E form \in {"plain", "inplace", "reflected"} : \E op \in {"+", "-", "*", "/"} : \E o \in Operands : Apply(form, op, o)
+\* A literal somewhere inside the expression is assigned a new value through the token itself (Number.value = v):
+\* every enclosing node must denote the new arithmetic value afterwards (nothing about the old operands may be
+\* remembered).  Leaves are numbered in reading order.
+RECURSIVE NLeaves(_)
+NLeaves(x) == IF x.k = "num" THEN 1
+              ELSE LET RECURSIVE S(_) S(i) == IF i > Len(x.xs) THEN 0 ELSE NLeaves(x.xs[i]) + S(i + 1) IN S(1)
+RECURSIVE SetLeaf(_, _, _)
+SetLeaf(x, k, v) ==
+    IF x.k = "num" THEN Num(v)
+    ELSE LET Before(i) == LET RECURSIVE S(_) S(j) == IF j >= i THEN 0 ELSE NLeaves(x.xs[j]) + S(j + 1) IN S(1)
+             i == CHOOSE i \in 1..Len(x.xs) : Before(i) < k /\ k <= Before(i) + NLeaves(x.xs[i])
+         IN [x EXCEPT !.xs[i] = SetLeaf(x.xs[i], k - Before(i), v)]
+
+EditLeaf(k, v) ==
+    /\ steps < Depth /\ steps' = steps + 1
+    /\ k \in 1..NLeaves(e)
+    /\ LET r == SetLeaf(e, k, v) IN
+          /\ Defined(Eval(r))
+          /\ e' = r
+          /\ last' = [got |-> Eval(r), want |-> Eval(SetLeaf(e, k, v))]
+          /\ hist' = Append(hist, [op |-> "leaf", form |-> "inplace", operand |-> <<"leaf", k>>, leaf |-> v,
+                                   value |-> Eval(r), text |-> Render(r)])
+
+Next == \/ \E k \in 1..4 : \E v \in LeafVals : EditLeaf(k, v)
+        \/ \E form \in {"plain", "inplace", "reflected"} : \E op \in {"+", "-", "*", "/"} : \E o \in Operands : Apply(form, op, o)
         \/ \E op \in {"+", "-"} : ApplyUnary(op)
 
 Init == \E n \in Inits :
